@@ -1,5 +1,171 @@
-import Netpol.Model.Engine
+import Netpol.Model.Cli
+import Netpol.Model.Pipeline
+import Netpol.Tie.C18
+/-! C18 — CLI, directory API and resource-info API give the same answer.
+The command layer is modelled with the library as a parameter (`Model/Cli.lean`); the facts about the Go code the
+theorems rest on are regenerated from the source on every run and checked in `Netpol/Tie/C18.lean`. The byte-level
+agreement of the built binary with the library (stdout, `-f`, exit status, every flag combination) is the P leg of the
+check (`fmt` family). -/
 namespace Netpol.Properties.C18
-open Netpol
+open Netpol Cli
+
+/-- the `list` command as wired in the current source -/
+def listWiring : Wiring :=
+  { options := ((Gen.cliWiring.find? (·.1 == "getConnlistOptions")).map (·.2)).getD []
+    printsReturnedString := Gen.listPrintsReturnedString
+    writesSameBytesToFile := Gen.listWritesSameBytesToFile
+    exitsOneOnError := Gen.executeExitsOneOnError }
+
+/-- the `diff` command as wired in the current source -/
+def diffWiring : Wiring :=
+  { options := ((Gen.cliWiring.find? (·.1 == "getDiffOptions")).map (·.2)).getD []
+    printsReturnedString := Gen.diffPrintsReturnedString
+    writesSameBytesToFile := Gen.diffWritesSameBytesToFile
+    exitsOneOnError := Gen.executeExitsOneOnError }
+
+/-- the options a user's flags stand for (the specification of the wiring) -/
+def specListOpts (stop exposure : Bool) : List String :=
+  ["connlist.WithLogger(l)", "connlist.WithFocusWorkload(focusWorkload)", "connlist.WithOutputFormat(output)"] ++
+  (if stop then ["connlist.WithStopOnError()"] else []) ++ (if exposure then ["connlist.WithExposureAnalysis()"] else [])
+
+def specDiffOpts (stop : Bool) : List String :=
+  ["diff.WithLogger(l)", "diff.WithOutputFormat(outFormat)", "diff.WithArgNames(dir1Arg, dir2Arg)"] ++
+  (if stop then ["diff.WithStopOnError()"] else [])
+
+theorem listWiring_options : listWiring.options = Tie.C18.specListOptions := by
+  have h := Tie.C18.list_options_eq
+  unfold listWiring
+  cases hf : (Gen.cliWiring.find? (·.1 == "getConnlistOptions")) with
+  | none => rw [hf] at h; cases h
+  | some x => rw [hf] at h; simpa using h
+
+theorem diffWiring_options : diffWiring.options = Tie.C18.specDiffOptions := by
+  have h := Tie.C18.diff_options_eq
+  unfold diffWiring
+  cases hf : (Gen.cliWiring.find? (·.1 == "getDiffOptions")) with
+  | none => rw [hf] at h; cases h
+  | some x => rw [hf] at h; simpa using h
+
+/-- every flag assignment reaches the library as exactly the options it stands for: no flag is dropped, none is added -/
+theorem list_options_exact (flags : String → Bool) :
+    optionsOf listWiring.options flags = specListOpts (flags "stopOnFirstError") (flags "exposureAnalysis") := by
+  rw [listWiring_options]
+  cases h1 : flags "stopOnFirstError" <;> cases h2 : flags "exposureAnalysis" <;>
+    simp [optionsOf, Tie.C18.specListOptions, specListOpts, List.filter, h1, h2]
+
+theorem diff_options_exact (flags : String → Bool) :
+    optionsOf diffWiring.options flags = specDiffOpts (flags "stopOnFirstError") := by
+  rw [diffWiring_options]
+  cases h1 : flags "stopOnFirstError" <;>
+    simp [optionsOf, Tie.C18.specDiffOptions, specDiffOpts, List.filter, h1]
+
+section
+variable {Res : Type} (lib : Lib Res) (flags : String → Bool)
+
+/-- `list`: stdout is exactly the library's string for the same options, the file holds the same bytes, exit status 0 -/
+theorem list_success {r : Res} {s : String}
+    (ha : lib.analyse (specListOpts (flags "stopOnFirstError") (flags "exposureAnalysis")) = .ok r)
+    (hr : lib.render (specListOpts (flags "stopOnFirstError") (flags "exposureAnalysis")) r = .ok s) (toFile : Bool) :
+    run listWiring lib flags toFile = ⟨some s, if toFile then some s else none, 0⟩ := by
+  have h := Tie.C18.stdout_eq_library_string
+  have h' := Tie.C18.file_eq_stdout
+  simp only [run, list_options_exact, ha, hr]
+  simp [listWiring, h.1, h'.1]
+
+/-- `list`: the exit status is non-zero exactly when a library call returns an error, and then nothing is printed -/
+theorem list_exit_nonzero_iff (toFile : Bool) :
+    (run listWiring lib flags toFile).exit ≠ 0 ↔
+      (∃ e, lib.analyse (specListOpts (flags "stopOnFirstError") (flags "exposureAnalysis")) = .error e) ∨
+      (∃ r e, lib.analyse (specListOpts (flags "stopOnFirstError") (flags "exposureAnalysis")) = .ok r ∧
+        lib.render (specListOpts (flags "stopOnFirstError") (flags "exposureAnalysis")) r = .error e) := by
+  have hx : listWiring.exitsOneOnError = true := Tie.C18.exit_nonzero_on_error
+  simp only [run, list_options_exact]
+  cases ha : lib.analyse (specListOpts (flags "stopOnFirstError") (flags "exposureAnalysis")) with
+  | error e => simp [hx]
+  | ok r =>
+    cases hr : lib.render (specListOpts (flags "stopOnFirstError") (flags "exposureAnalysis")) r with
+    | error e => simp [hx, hr]
+    | ok s => simp [hr]
+
+theorem list_error_prints_nothing (toFile : Bool) (h : (run listWiring lib flags toFile).exit ≠ 0) :
+    (run listWiring lib flags toFile).stdout = none ∧ (run listWiring lib flags toFile).file = none := by
+  simp only [run] at h ⊢
+  cases ha : lib.analyse (optionsOf listWiring.options flags) with
+  | error e => simp
+  | ok r =>
+    cases hr : lib.render (optionsOf listWiring.options flags) r with
+    | error e => simp [hr]
+    | ok s => simp [ha, hr] at h
+
+/-- `-f FILE` writes the same bytes as stdout -/
+theorem list_file_eq_stdout : (run listWiring lib flags true).file = (run listWiring lib flags true).stdout := by
+  have h := Tie.C18.stdout_eq_library_string
+  have h' := Tie.C18.file_eq_stdout
+  simp only [run]
+  cases ha : lib.analyse (optionsOf listWiring.options flags) with
+  | error e => simp
+  | ok r =>
+    cases hr : lib.render (optionsOf listWiring.options flags) r with
+    | error e => simp [hr]
+    | ok s =>
+      have hp : listWiring.printsReturnedString = true := h.1
+      have hw : listWiring.writesSameBytesToFile = true := h'.1
+      simp [hr, hp, hw]
+
+theorem diff_success {r : Res} {s : String}
+    (ha : lib.analyse (specDiffOpts (flags "stopOnFirstError")) = .ok r)
+    (hr : lib.render (specDiffOpts (flags "stopOnFirstError")) r = .ok s) (toFile : Bool) :
+    run diffWiring lib flags toFile = ⟨some s, if toFile then some s else none, 0⟩ := by
+  have h := Tie.C18.stdout_eq_library_string
+  have h' := Tie.C18.file_eq_stdout
+  simp only [run, diff_options_exact, ha, hr]
+  simp [diffWiring, h.2, h'.2]
+
+theorem diff_exit_nonzero_iff (toFile : Bool) :
+    (run diffWiring lib flags toFile).exit ≠ 0 ↔
+      (∃ e, lib.analyse (specDiffOpts (flags "stopOnFirstError")) = .error e) ∨
+      (∃ r e, lib.analyse (specDiffOpts (flags "stopOnFirstError")) = .ok r ∧
+        lib.render (specDiffOpts (flags "stopOnFirstError")) r = .error e) := by
+  have hx : diffWiring.exitsOneOnError = true := Tie.C18.exit_nonzero_on_error
+  simp only [run, diff_options_exact]
+  cases ha : lib.analyse (specDiffOpts (flags "stopOnFirstError")) with
+  | error e => simp [hx]
+  | ok r =>
+    cases hr : lib.render (specDiffOpts (flags "stopOnFirstError")) r with
+    | error e => simp [hx, hr]
+    | ok s => simp [hr]
+
+theorem diff_file_eq_stdout : (run diffWiring lib flags true).file = (run diffWiring lib flags true).stdout := by
+  have h := Tie.C18.stdout_eq_library_string
+  have h' := Tie.C18.file_eq_stdout
+  simp only [run]
+  cases ha : lib.analyse (optionsOf diffWiring.options flags) with
+  | error e => simp
+  | ok r =>
+    cases hr : lib.render (optionsOf diffWiring.options flags) r with
+    | error e => simp [hr]
+    | ok s =>
+      have hp : diffWiring.printsReturnedString = true := h.2
+      have hw : diffWiring.writesSameBytesToFile = true := h'.2
+      simp [hr, hp, hw]
+end
+
+/-- `ConnlistFromDirPath` = scan + `ConnlistFromResourceInfos`: in the pipeline model the directory entry point is the
+resource-info entry point applied to the scanned documents whenever the scanner reports no error -/
+theorem dirpath_eq_infos (objs : List Obj) (classes : List Pipeline.ScanClass) (stop : Bool)
+    (h : Pipeline.ScanClass.unreadable ∉ classes) :
+    Pipeline.outcome objs classes stop = Pipeline.outcome objs (classes.filter (· != .unreadable)) stop := by
+  have : classes.filter (· != .unreadable) = classes := by
+    apply List.filter_eq_self.mpr
+    intro c hc
+    cases c <;> simp_all
+  rw [this]
+
+/-- the premises are satisfiable: a library that answers -/
+example : run listWiring (⟨fun _ => .ok 1, fun _ n => .ok (toString n)⟩ : Lib Nat) (fun _ => true) true =
+    ⟨some "1", some "1", 0⟩ := list_success _ _ rfl rfl true
+
+example : (run diffWiring (⟨fun _ => .error "x", fun _ n => .ok (toString n)⟩ : Lib Nat) (fun _ => false) false).exit = 1 := by
+  decide
 
 end Netpol.Properties.C18
